@@ -22,3 +22,14 @@ Proof. exact TocW.write_toc_fixed_balanced. Qed.
 Print Assumptions C06_counters.
 Print Assumptions C06_levels_ordered.
 Print Assumptions C06_toc_nested.
+
+(* the table-of-contents writer on the real strings (Model/Xhtml.toc_string: the XHTML TOC, the EPUB navigation document and
+   the NCX, i.e. writeTOC after the repair of D4): for every header list, every combination of options (mini, summary,
+   nonum, title) and every counter state, what it writes opens and closes exactly its own elements, nested lists included.
+   Entries are assumed to carry a reference without '>' and a balanced title (what processInlineMacros returns). *)
+Require TocStr St Exp Xhtml Tok.
+Theorem C06_toc_writer_balanced : forall d opts s t s1, Exp.fmt s = Exp.FX -> Forall TocStr.entry_ok (St.lox_toc s) ->
+  Tok.textual (Xhtml.X.param "document-title" s) ->
+  Xhtml.X.toc_string d opts s = (Some t, s1) -> forall stk, Tok.run t (Tok.Txt, stk) = (Tok.Txt, stk).
+Proof. exact TocStr.toc_string_balanced. Qed.
+Print Assumptions C06_toc_writer_balanced.
